@@ -129,7 +129,19 @@ def merged_call(interp, clo, args, kwargs):
     return (result terms merged with ite) and one per raised exception class."""
     ctx = interp.ctx
     try:
-        outs = summarize(interp, lambda: interp.run_closure(clo, args, kwargs), site=("merged", clo.qualname, len(args)))
+        def _ident(v):
+            from .core import tid
+            if isinstance(v, SVal):
+                return ("t", tid(v.t))
+            if hasattr(v, "oid"):
+                return ("o", v.oid)
+            try:
+                hash(v)
+                return ("v", v)
+            except TypeError:
+                return ("i", id(v))
+        akey = tuple(_ident(a) for a in args) + tuple((k, _ident(v)) for k, v in sorted(kwargs.items())) if isinstance(kwargs, dict) else ()
+        outs = summarize(interp, lambda: interp.run_closure(clo, args, kwargs), site=("merged", clo.qualname, akey))
     except Unsupported as u:
         if "impure" in str(u):
             return interp.run_closure(clo, args, kwargs)
@@ -146,7 +158,7 @@ def merged_call(interp, clo, args, kwargs):
         alts.append((cls, disj([o.cond() for o in os_])))
     if not alts:
         raise PathKilled()
-    i = ctx.choose([c for _, c in alts])
+    i = ctx.choose([c for _, c in alts], labels=["merged:" + (k if isinstance(k, str) else k.__name__) for k, _ in alts])
     kind = alts[i][0]
     if kind == "normal":
         vals = [o.value for o in normals]
